@@ -5,7 +5,7 @@ import gens_slow
 from props.common import TRUSTED_BASE, ASSUMPTIONS
 
 ID = "C05"
-LEAN_MODULES = ["LexVerif.Props.C05", "LexVerif.Props.C01Slow", "LexVerif.Props.RoundNE", "LexVerif.Props.TablesParse", "LexVerif.Props.Literals.ParseFloatParse", "LexVerif.Props.Literals.ParseFloatNumber", "LexVerif.Props.Literals.ParseFloatLemire", "LexVerif.Props.Literals.ParseFloatBellerophon", "LexVerif.Props.Literals.ParseFloatSlow", "LexVerif.Props.Literals.ParseFloatBigint", "LexVerif.Props.Literals.ParseFloatShared", "LexVerif.Props.Literals.ParseFloatFloat", "LexVerif.Props.Literals.ParseFloatMask", "LexVerif.Props.Literals.ParseFloatLimits", "LexVerif.Props.Literals.ParseIntegerAlgorithm", "LexVerif.Props.Literals.UtilDigit", "LexVerif.Props.Literals.UtilStep", "LexVerif.Props.Literals.ParseFloatBinary", "LexVerif.Props.LiteralsModel", "LexVerif.Props.C05Bytes", "LexVerif.Props.C05Final", "LexVerif.Props.C05Number", "LexVerif.Props.C05Syntax"]
+LEAN_MODULES = ["LexVerif.Props.Literals.ParseFloatLibm", "LexVerif.Props.Literals.ParseFloatFpu", "LexVerif.Props.C05", "LexVerif.Props.C01Slow", "LexVerif.Props.RoundNE", "LexVerif.Props.TablesParse", "LexVerif.Props.Literals.ParseFloatParse", "LexVerif.Props.Literals.ParseFloatNumber", "LexVerif.Props.Literals.ParseFloatLemire", "LexVerif.Props.Literals.ParseFloatBellerophon", "LexVerif.Props.Literals.ParseFloatSlow", "LexVerif.Props.Literals.ParseFloatBigint", "LexVerif.Props.Literals.ParseFloatShared", "LexVerif.Props.Literals.ParseFloatFloat", "LexVerif.Props.Literals.ParseFloatMask", "LexVerif.Props.Literals.ParseFloatLimits", "LexVerif.Props.Literals.ParseIntegerAlgorithm", "LexVerif.Props.Literals.UtilDigit", "LexVerif.Props.Literals.UtilStep", "LexVerif.Props.Literals.ParseFloatBinary", "LexVerif.Props.LiteralsModel", "LexVerif.Props.C05Bytes", "LexVerif.Props.C05Final", "LexVerif.Props.C05Number", "LexVerif.Props.C05Syntax"]
 GEN = ["parse_tables", "literals"]
 TRUSTED = TRUSTED_BASE + [
     "of the big-integer slow paths digit_comp (even radices) IS proved on its Lean model under the bracket precondition (Props/C01Slow.lean; truncation_invariant_proved and slow_radix_correct_full_proved: the whole digit string, any number of digits, every radix with a digit limit), byte_comp (odd radices) is modelled on limbs and proved on that model (Props/C05Bytes.lean: byte_comp_correct, whenever it returns); the non-decimal pipeline is composed in Props/C05Final.lean (C05_radix_main; residual: SyntaxFacts, SlowFacts) and the syntax layer is discharged for the same-base classes in Props/C05Syntax.lean (C05_generic_main: residual SlowFacts; C05_pow2_main: residual exponent range only); proved: the oracle, the per-radix tables, "
